@@ -30,12 +30,12 @@ Qed.
 
 Section FunctionRT.
   Variable f : FunctionP.
-  Variables (allow_dev allow_vinfo : bool) (irv : Z) (n fuel' : nat).
+  Variables (allow_dev allow_vinfo : bool) (irvo : option Z) (n fuel' : nat).
   Hypothesis Hwf : wf_function allow_dev allow_vinfo f = true.
   Hypothesis Hd : (fdepth f <= S n)%nat.
   Hypothesis Hfuel : (S n <= fuel')%nat.
-  Hypothesis Hirv : irv_allows allow_dev (Some irv).
-  Hypothesis Hvi : allow_vinfo = (FUNCTION_VALUE_INFO_SUPPORTED_VERSION <=? irv).
+  Hypothesis Hirv : irv_allows allow_dev irvo.
+
 
   Let W := wf_function_unpack _ _ _ Hwf.
   Let vis := vinfo_dict (f_vinfo f).
@@ -43,7 +43,7 @@ Section FunctionRT.
   Let decl := f_inputs f ++ nouts.
   Let dg := deser_graph (S n).
   Let sg := ser_graph fuel' None.
-  Let sgn := ser_graph fuel' (Some irv).
+  Let sgn := ser_graph fuel' irvo.
   Notation fvf := (fvf f).
   Notation FT1 := (FT1 f).
 
@@ -55,11 +55,11 @@ Section FunctionRT.
   Lemma f_nodes_phase :
     exists inodes,
       mapS (deser_node dg empty_graph [] vis []) (f_nodes f) FT1 = Ok (inodes, FT1)
-      /\ Forall2 (node_rel sgn (Some irv)) (f_nodes f) inodes.
+      /\ Forall2 (node_rel sgn irvo) (f_nodes f) inodes.
   Proof.
-    apply (nodes_phase dg sgn (fun g' => wf_graph allow_dev decl g' && small n g') [] FT1 vis [] allow_dev (Some irv) decl).
+    apply (nodes_phase dg sgn (fun g' => wf_graph allow_dev decl g' && small n g') [] FT1 vis [] allow_dev irvo decl).
     - intros g' Hw. apply andb_prop in Hw. destruct Hw as [Hw1 Hw2].
-      apply (nested_rt n fuel' allow_dev (Some irv) decl [FT1] g' Hfuel Hirv); try assumption.
+      apply (nested_rt n fuel' allow_dev irvo decl [FT1] g' Hfuel Hirv); try assumption.
       + constructor; [apply (FT1_ok f) | constructor].
       + intros k Hk. unfold visible_in. simpl. rewrite (FT1_lookup f allow_dev allow_vinfo W k Hk). eexists. reflexivity.
     - unfold small. change (is_empty_graph empty_graph) with true. rewrite orb_true_r, andb_true_r.
@@ -151,9 +151,9 @@ Section FunctionRT.
 
   Lemma fser_nodes nodes inodes :
     (forall nd, In nd nodes -> In nd (f_nodes f)) ->
-    Forall2 (node_rel sgn (Some irv)) nodes inodes ->
+    Forall2 (node_rel sgn irvo) nodes inodes ->
     exists nres,
-      mapM (fun nd => np <- ser_node sgn (Some irv) nd ;;
+      mapM (fun nd => np <- ser_node sgn irvo nd ;;
                       vs <- mapM (fun k => match k with [] => Ok [] | _ => v <- getv FT1 k ;; Ok [v] end) (in_outputs nd) ;;
                       Ok (np, filter should_create (concat vs))) inodes = Ok nres
       /\ map (norm_node norm_graph empty_graph) (map fst nres) = map (norm_node norm_graph empty_graph) nodes
@@ -177,25 +177,25 @@ Section FunctionRT.
   Definition info_values : list IValue := filter should_create (map fvf decl).
 
   Lemma ser_function_ok inodes ias l' :
-    Forall2 (node_rel sgn (Some irv)) (f_nodes f) inodes ->
+    Forall2 (node_rel sgn irvo) (f_nodes f) inodes ->
     Forall (fun ia => attr_has_value ia = true) ias ->
     mapM (ser_attr sg) ias = Ok l' ->
     exists nps,
       map (norm_node norm_graph empty_graph) nps = map (norm_node norm_graph empty_graph) (f_nodes f)
-      /\ ser_function fuel' irv (the_fn inodes ias)
+      /\ ser_function_gen fuel' allow_vinfo irvo (the_fn inodes ias)
          = Ok (mkFunctionP (truthy_s (dflt [] (f_name f))) (truthy_s (dflt [] (f_domain f)))
                            (truthy_s (dflt [] (f_overload f))) (truthy (f_doc f))
                            (f_inputs f) (f_outputs f) (f_attr f) l' nps (dict_of (f_opsets f))
-                           (if FUNCTION_VALUE_INFO_SUPPORTED_VERSION <=? irv then map (ser_value []) info_values else [])
+                           (if allow_vinfo then map (ser_value []) info_values else [])
                            (ksort (dict_of (f_meta f))),
-               if FUNCTION_VALUE_INFO_SUPPORTED_VERSION <=? irv then []
+               if allow_vinfo then []
                else map (fun v => ser_value ((dflt [] (f_domain f) ++ [58; 58]%N ++ dflt [] (f_name f) ++ [47]%N) ++ v_name v) v)
                         info_values).
   Proof.
     intros HF Hval Hser.
     destruct (fser_nodes (f_nodes f) inodes (fun nd H => H) HF) as (nres & Hn1 & Hn2 & Hn3).
     exists (map fst nres). split; [exact Hn2|].
-    unfold ser_function, the_fn.
+    unfold ser_function_gen, the_fn.
     cbn [if_graph if_attrs if_domain if_name if_overload ig_values ig_inputs ig_outputs ig_nodes ig_doc ig_opsets ig_meta].
     rewrite (mapM_total _ fvf).
     2:{ intros k Hk. apply (FT1_getv f allow_dev allow_vinfo W). apply in_or_app. left. exact Hk. }
@@ -284,23 +284,22 @@ Section FunctionRT.
 
   Theorem function_roundtrip_fuel :
     exists fn, deser_function (S n) f = Ok fn
-               /\ exists q, ser_function fuel' irv fn = Ok (q, []) /\ norm_function q = norm_function f.
+               /\ exists q, ser_function_gen fuel' allow_vinfo irvo fn = Ok (q, []) /\ norm_function q = norm_function f.
   Proof.
     destruct f_nodes_phase as (inodes & Hn & HF).
     destruct f_attrs_phase as (ias & Ha & Hnames & Hval & l' & Hser & Hnorm).
     exists (the_fn inodes ias). split; [exact (deser_function_ok inodes ias Hn Ha Hnames)|].
     destruct (ser_function_ok inodes ias l' HF Hval Hser) as (nps & Hnps & Hs).
     eexists. rewrite Hs. split.
-    - f_equal. f_equal. remember (FUNCTION_VALUE_INFO_SUPPORTED_VERSION <=? irv) as c eqn:Ec in |- *.
-      destruct c; [reflexivity|].
-      rewrite info_values_nil; [reflexivity|]. apply (f_vinfo_allowed _ _ _ W). congruence.
+    - f_equal. f_equal. remember allow_vinfo as c eqn:Ec in |- *. destruct c; [reflexivity|].
+      rewrite info_values_nil; [reflexivity|]. apply (f_vinfo_allowed _ _ _ W). symmetry. exact Ec.
     - unfold norm_function. cbn [f_name f_domain f_overload f_doc f_inputs f_outputs f_attr f_attr_protos f_nodes f_opsets f_vinfo f_meta].
       rewrite !truthy_truthy_s, !truthy_some_dflt, truthy_idem, Hnorm, Hnps.
       rewrite (node_out_names_norm nps (f_nodes f) Hnps).
       rewrite (dict_of_nodup _ (f_opsets_wf _ _ _ W)), (ksort_dict_of _ (f_meta_wf _ _ _ W)).
       fold nouts. fold decl. f_equal.
-      remember (FUNCTION_VALUE_INFO_SUPPORTED_VERSION <=? irv) as c eqn:Ec in |- *. destruct c.
+      remember allow_vinfo as c eqn:Ec in |- *. destruct c.
       + exact fvinfo_part.
-      + rewrite (f_vinfo_allowed _ _ _ W); [reflexivity|]. congruence.
+      + rewrite (f_vinfo_allowed _ _ _ W); [reflexivity|]. symmetry. exact Ec.
   Qed.
 End FunctionRT.
